@@ -1,16 +1,28 @@
 #!/bin/bash
 # Regression of the checks themselves (not a registered check): unchanged tree silent, every seeded change detected,
-# every behaviour-preserving refactor silent.  Applies patches to /repo and reverts them.
+# every behaviour-preserving refactor silent.  Applies patches to /repo and reverts them - do not run anything else that
+# reads or writes /repo's working tree at the same time.
 cd /verif
 fail=0
+E=/tmp/qv-evidence-scratch
+all_checks() {   # runs every check in parallel, prints the ids that did not exit 0
+  local bad=""
+  for p in $(python3 run.py list); do
+    ( QV_EVIDENCE_DIR=$E/$p python3 run.py check $p >/tmp/rg_$p.out 2>&1; echo $? >/tmp/rg_$p.rc ) &
+  done
+  wait
+  for p in $(python3 run.py list); do [ "$(cat /tmp/rg_$p.rc)" = "0" ] || bad="$bad $p"; done
+  echo "$bad"
+}
 echo "== unchanged tree"
-for p in $(python3 run.py list); do QV_EVIDENCE_DIR=/tmp/qv-evidence-scratch python3 run.py check $p >/tmp/rg.out 2>&1 || { echo "  FAIL $p"; fail=1; }; done
+git -C /repo diff --quiet || { echo "/repo has local changes - refusing"; exit 2; }
+bad=$(all_checks); [ -z "$bad" ] || { echo "  FAIL:$bad"; fail=1; }
 echo "== seeded changes"
 for d in /verif/seeded/*/; do
   id=$(basename $d); prop=$(python3 -c "import json;m=json.load(open('$d/meta.json'));print(m.get('detect_with') or m['property'])")
-  git -C /repo apply --check $d/patch.diff 2>/dev/null || { echo "  $id: patch does not apply to the current tree"; continue; }
+  git -C /repo apply --check $d/patch.diff 2>/dev/null || { echo "  $id: patch does not apply to the current tree"; fail=1; continue; }
   git -C /repo apply $d/patch.diff
-  QV_EVIDENCE_DIR=/tmp/qv-evidence-scratch python3 run.py check $prop >/tmp/rg.out 2>&1; rc=$?
+  QV_EVIDENCE_DIR=$E/$prop python3 run.py check $prop >/tmp/rg.out 2>&1; rc=$?
   git -C /repo checkout -- .
   if grep -q "NOT DETECTED" $d/meta.json; then exp="(documented miss)"; else exp=""; [ $rc -eq 1 ] || { fail=1; exp="UNEXPECTED"; }; fi
   echo "  $id $prop rc=$rc $exp"
@@ -18,11 +30,11 @@ done
 echo "== behaviour-preserving refactors"
 for d in /verif/refactors/*/; do
   [ -f $d/patch.diff ] || continue
-  git -C /repo apply --check $d/patch.diff 2>/dev/null || { echo "  $(basename $d): does not apply"; continue; }
+  git -C /repo apply --check $d/patch.diff 2>/dev/null || { echo "  $(basename $d): does not apply"; fail=1; continue; }
   git -C /repo apply $d/patch.diff
-  bad=""
-  for p in $(python3 run.py list); do QV_EVIDENCE_DIR=/tmp/qv-evidence-scratch python3 run.py check $p >/tmp/rg.out 2>&1 || bad="$bad $p"; done
+  bad=$(all_checks)
   git -C /repo checkout -- .
   [ -z "$bad" ] && echo "  $(basename $d) silent" || { echo "  $(basename $d) ALARM:$bad"; fail=1; }
 done
+rm -rf $E /tmp/rg_*.out /tmp/rg_*.rc
 exit $fail
